@@ -202,6 +202,30 @@ func genSeqScenario(r *verifrt.Rand, i int) *seqScenario {
 		f.setName(k)
 		s.Files = append(s.Files, f)
 	}
+	if i%8 == 0 && nf >= 2 {
+		// two readable files of one week with different begin dates and the
+		// opt-in date on or between them, in both file-name orders
+		a, b := s.Files[0], s.Files[1]
+		a.Kind, b.Kind = "ok", "ok"
+		end := t1.Truncate(24 * time.Hour).Add(-time.Duration(r.Intn(10)) * 24 * time.Hour)
+		a.End, b.End = end, end
+		a.Begin = end.Add(-time.Duration(4+r.Intn(3)) * 24 * time.Hour)
+		b.Begin = end.Add(-time.Duration(1+r.Intn(2)) * 24 * time.Hour)
+		if r.Bool() {
+			a.Begin, b.Begin = b.Begin, a.Begin
+		}
+		a.setName(0)
+		b.setName(1)
+		early := a.Begin
+		if b.Begin.Before(early) {
+			early = b.Begin
+		}
+		asof := early.Add(time.Duration(r.Intn(4)-1) * 24 * time.Hour)
+		for k := range s.Mode {
+			s.Mode[k] = "on " + asof.Format("2006-01-02")
+		}
+		s.Cfg.SampleRate = 0
+	}
 	// a file that keeps growing between runs
 	if nruns > 1 && r.Intn(2) == 0 {
 		s.Grow[1+r.Intn(nruns-1)] = r.Intn(nf)
